@@ -25,7 +25,7 @@ def rand_len(rng, tier):
         return rng.randrange(1, 300)
     if r < 0.97:
         return rng.choice((255, 256, 257, 4095, 4096))
-    if tier == 'thorough' and r < 0.995:
+    if r < 0.985 or (tier == 'thorough' and r < 0.995):
         return rng.choice((65535, 65536, 65537, 70000))
     return rng.randrange(300, 2000)
 
@@ -528,3 +528,160 @@ def gen_refcount(rng, tier, sess):
             while busy[0]:
                 handle(0, sess.send('step 0'))
     sess.send('state')
+
+
+# ------------------------------------------------------------------------------------------------
+# concurrent skiplist: steered schedules, chosen interactively (C13, C14, C15)
+# ------------------------------------------------------------------------------------------------
+
+def gen_skipconc(rng, tier, sess):
+    n = rng.choice((2, 2, 3, 4))
+    nkeys = rng.choice((1, 2, 3, 5))
+    sess.send('threads %d' % n)
+    busy = [False] * n
+    iters = [dict() for _ in range(n)]      # name -> valid?
+    pend = [None] * n
+    stick = rng.random() * 0.8
+    last = 0
+    nit = 0
+    # a few sequential inserts first so that deletes have something to hit
+    for _ in range(rng.randrange(0, 4)):
+        o = sess.send('start 0 ins %d lvl=%d' % (rng.randrange(nkeys) * 2 + 2, rng.choice((0, 0, 1, 2, 3))))
+        while o.startswith('at '):
+            o = sess.send('step 0')
+
+    def handle(t, o):
+        if o.startswith('at '):
+            busy[t] = True
+            return
+        busy[t] = False
+        p = pend[t]
+        if p and o.startswith('ret'):
+            kind, name = p
+            if kind in ('it_first', 'it_seek', 'it_next'):
+                iters[t][name] = (o != 'ret end')
+            elif kind == 'it_close':
+                iters[t].pop(name, None)
+        pend[t] = None
+
+    def start(t):
+        nonlocal nit
+        r = rng.random()
+        k = rng.randrange(nkeys) * 2 + 2
+        if r < 0.35:
+            pend[t] = ('ins', None)
+            handle(t, sess.send('start %d ins %d lvl=%d' % (t, k, rng.choice((0, 0, 0, 1, 1, 2, 3, 5)))))
+        elif r < 0.65:
+            pend[t] = ('del', None)
+            handle(t, sess.send('start %d del %d' % (t, k)))
+        elif r < 0.72:
+            pend[t] = ('look', None)
+            handle(t, sess.send('start %d look %d' % (t, k)))
+        else:
+            valid = [nm for nm, v in iters[t].items() if v]
+            q = rng.random()
+            if valid and q < 0.6:
+                nm = rng.choice(valid)
+                pend[t] = ('it_next', nm)
+                handle(t, sess.send('start %d it_next %s' % (t, nm)))
+            elif iters[t] and q < 0.7:
+                nm = rng.choice(sorted(iters[t]))
+                pend[t] = ('it_close', nm)
+                handle(t, sess.send('start %d it_close %s' % (t, nm)))
+            elif len(iters[t]) < 2:
+                nit += 1
+                nm = 'i%d' % nit
+                if rng.random() < 0.5:
+                    pend[t] = ('it_first', nm)
+                    handle(t, sess.send('start %d it_first %s' % (t, nm)))
+                else:
+                    pend[t] = ('it_seek', nm)
+                    handle(t, sess.send('start %d it_seek %s %d' % (t, nm, rng.randrange(nkeys * 2 + 3))))
+
+    for _ in range(rng.randrange(20, 200 if tier == 'quick' else 800)):
+        t = last if rng.random() < stick else rng.randrange(n)
+        last = t
+        if busy[t]:
+            handle(t, sess.send('step %d' % t))
+        else:
+            start(t)
+    guard = 0
+    while any(busy) and guard < 100000:
+        guard += 1
+        t = rng.choice([i for i in range(n) if busy[i]])
+        handle(t, sess.send('step %d' % t))
+    for t in range(n):
+        for nm in sorted(iters[t]):
+            pend[t] = ('it_close', nm)
+            handle(t, sess.send('start %d it_close %s' % (t, nm)))
+    sess.send('walk')
+    sess.send('stats')
+    # a final sequential full scan: after quiescence an iterator yields exactly the set
+    o = sess.send('start 0 it_first z')
+    pend[0] = None
+    while o.startswith('ret') and o != 'ret end':
+        o = sess.send('start 0 it_next z')
+        while o.startswith('at '):
+            o = sess.send('step 0')
+    sess.send('start 0 it_close z')
+
+
+# ------------------------------------------------------------------------------------------------
+# backup / restore (C05 round trips; C11 and C12 are driven interactively from props.py)
+# ------------------------------------------------------------------------------------------------
+
+def gen_backup(rng, tier):
+    """history -> store a random open snapshot (with churn during the backup) -> close everything ->
+    load -> continue the history on the restored instance."""
+    sim = MvccSim(rng, tier)
+    delta = rng.random() < 0.5
+    if delta:
+        sim.lines[0] += ' delta=1'
+    sim.nkeys = rng.choice((1, 3, 8, 30, 120))
+    for _ in range(rng.randrange(3, 60 if tier == 'quick' else 400)):
+        r = rng.random()
+        k = sim.key()
+        if r < 0.55:
+            sim.lines.append('put %d %d %d' % (sim.w(), k, rng.randrange(3) if sim.kv else 0))
+            sim.live.setdefault(k, sim.epoch)
+        elif r < 0.8:
+            sim.lines.append('del %d %d' % (sim.w(), k))
+            sim.live.pop(k, None)
+        elif r < 0.93:
+            sim.lines.append('snap')
+            sim.refs.append(1)
+            sim.epoch += 1
+        else:
+            o = sim.open_snaps()
+            if o:
+                s = rng.choice(o)
+                sim.lines.append('close %d' % (s + 1))
+                sim.refs[s] -= 1
+    sim.lines.append('snap')
+    sim.refs.append(1)
+    sim.epoch += 1
+    s = rng.choice(sim.open_snaps())
+    sim.lines.append('scan %d' % (s + 1))
+    line = 'store %d conc=%d' % (s + 1, rng.choice((1, 2, 3, 8)))
+    if rng.random() < 0.6:
+        ks = sorted(set(sim.key() for _ in range(rng.randrange(0, 6))))
+        line += ' churn=' + (','.join(map(str, ks)) if ks else '.')
+        sim.refs.append(0)
+        sim.epoch += 1
+    sim.lines.append(line)
+    sim.refs[s] -= 1
+    for i in sim.open_snaps():
+        while sim.refs[i] > 0:
+            sim.lines.append('close %d' % (i + 1))
+            sim.refs[i] -= 1
+    sim.lines.append('gcwait')
+    sim.lines.append('load conc=%d' % rng.choice((1, 2, 3, 8)))
+    # the restored instance: one snapshot (number 1), fresh epoch counter
+    sim.refs = [1]
+    sim.iters = {}
+    sim.handles = {}
+    sim.lines.append('scan 1')
+    sim.lines.append('count 1')
+    for _ in range(rng.randrange(0, 25)):
+        sim.op()
+    return sim.finish()
